@@ -65,5 +65,11 @@ Proof.
   intros Hw H1 H2. unfold parse_operator. cbn [eat_ws]. rewrite Hw. cbn [peek adv tl]. rewrite H1.
   destruct (eqc c1 0 || eqc c2 0); [reflexivity|]. now rewrite H2.
 Qed.
+(* "==", "=<", "=>" *)
+Theorem reject_double_operator c2 x : eqc c2 61 || eqc c2 60 || eqc c2 62 = true -> parse_operator ("="%char :: c2 :: x) = Err.
+Proof.
+  intros H. unfold parse_operator. cbn [eat_ws]. change (is_ws "="%char) with false. cbv iota. cbn [peek adv tl].
+  change (eqc "="%char 61) with true. cbv iota. now rewrite H.
+Qed.
 Print Assumptions reject_second_version.
 Print Assumptions reject_mixed_negation.
